@@ -136,7 +136,13 @@ func wsPart(w *vc.Writer, r *vc.Rand) {
 			text := !rr.Chance(15)
 			fs = append(fs, fr{text, p})
 			frames = append(frames, vc.L{text, p})
+			if !text {
+				// gws closes the TCP connection right after writing the close frame: client data still unread at that moment
+				// resets the connection and can destroy the close frame (dependency behaviour, DESIGN §6) - send nothing after it
+				break
+			}
 		}
+		nFrames = len(fs)
 		// expected number of request messages and whether a wrong-typed frame ends the call
 		wrong := false
 		expectReqs := 0
